@@ -292,8 +292,10 @@ func makePlan(seed int64, variant int) *plan {
 	g := chainsim.NewGen(r, p, ref)
 	pl := &plan{ref: ref}
 	pl.w = Workload{Seed: seed, Params: p, SaveTargetMs: []int{0, 300, 0, 150}[variant%4], Compress: variant%2 == 1, Purge: variant%3 == 1, SkipSave: []uint32{0, 0, 6, 0, 2}[variant%5], UnwindBuf: []uint32{0, 101, 0, 104}[variant%4]}
-	if variant%4 == 3 {
-		pl.w.MaxDataFile = 40000 // data-file roll-over every few blocks
+	if variant%4 == 3 || variant%5 == 1 {
+		// data-file roll-over every few blocks, every other block, (nearly) every block: a restart then finds the newest
+		// data file holding many, two or exactly one block
+		pl.w.MaxDataFile = []uint64{40000, 5000, 1500}[(variant/4)%3]
 	}
 	add := func(b *refchain.Block, note string) refchain.Result {
 		rr := ref.Deliver(b)
